@@ -217,19 +217,23 @@ class Transceiver:
 		return True
 
 	def get_rx_freq(self, fn):
-		if self.fh is None:
+		# NOTE: self.fh may be reset by POWEROFF from another thread
+		fh = self.fh
+		if fh is None:
 			return self._rx_freq
 
 		# Frequency hopping in use, resolve by TDMA fn
-		(rx_freq, _) = self.fh.resolve(fn)
+		(rx_freq, _) = fh.resolve(fn)
 		return rx_freq
 
 	def get_tx_freq(self, fn):
-		if self.fh is None:
+		# NOTE: self.fh may be reset by POWEROFF from another thread
+		fh = self.fh
+		if fh is None:
 			return self._tx_freq
 
 		# Frequency hopping in use, resolve by TDMA fn
-		(_, tx_freq) = self.fh.resolve(fn)
+		(_, tx_freq) = fh.resolve(fn)
 		return tx_freq
 
 	def enable_fh(self, *args):
